@@ -20,7 +20,7 @@ func c05Mutate(r *rand.Rand, o database.SearchOptions, n int, words []string) (d
 	p := o
 	switch r.Intn(11) {
 	case 0:
-		p.Limit = []int{1, 2, 3, 5, n + 1}[r.Intn(5)]
+		p.Limit = []int{1, 2, 3, 5, n + 1, 0, -1, 10}[r.Intn(8)]
 		return p, "Limit"
 	case 1:
 		p.ContextBoosts = map[string]float64{}
@@ -51,7 +51,7 @@ func c05Mutate(r *rand.Rand, o database.SearchOptions, n int, words []string) (d
 		p.AllPlatforms = !o.AllPlatforms
 		return p, "AllPlatforms"
 	case 9:
-		p.Platforms = [][]string{nil, {"windows"}, {"macos"}, {"linux"}, {"windows", "macos"}}[r.Intn(5)]
+		p.Platforms = append([]string(nil), [][]string{nil, {"windows"}, {"macos"}, {"linux"}, {"windows", "macos"}}[r.Intn(5)]...)
 		return p, "Platforms"
 	default:
 		p.NoCrossPlatform = !o.NoCrossPlatform
@@ -142,9 +142,29 @@ func engineCacheHist(ctx *Ctx) {
 				} else if r.Intn(6) == 0 && len(q) > 0 {
 					q = strings.ToUpper(q[:1]) + q[1:]
 				}
-				if r.Intn(2) == 0 {
+				if r.Intn(8) == 0 { // the cache files queries under their trimmed form: blank-padded variants must then get the same answer
+					q = []string{" ", "  ", "\t"}[r.Intn(3)] + q
+					if r.Intn(2) == 0 {
+						q += " "
+					}
+					ctx.R.Path("blank-padded-queries", 1)
+				}
+				switch x := r.Intn(10); {
+				case x < 5:
 					cur, lastDelta = c05Mutate(r, cur, len(db.Commands), words)
-				} else {
+				case x == 5 && len(cur.ContextBoosts) > 0: // the caller edits its own boost map in place between two calls
+					for k := range cur.ContextBoosts {
+						cur.ContextBoosts[k] = []float64{1.5, 2, 3, 10}[r.Intn(4)]
+						break
+					}
+					cur.ContextBoosts[words[r.Intn(len(words))]] = 5
+					lastDelta = "ContextBoosts(in place)"
+					ctx.R.Path("in-place-option-edits", 1)
+				case x == 6 && len(cur.Platforms) > 0: // ... or its platform slice
+					cur.Platforms[0] = []string{"windows", "macos", "linux"}[r.Intn(3)]
+					lastDelta = "Platforms(in place)"
+					ctx.R.Path("in-place-option-edits", 1)
+				default:
 					lastDelta = ""
 				}
 				o := cur
@@ -255,6 +275,12 @@ func engineCacheHist(ctx *Ctx) {
 				}
 				ctx.R.Guard("C05", "UpdateDatabase", trace, func() {
 					repl := mk()
+					switch r.Intn(8) {
+					case 0:
+						repl = nil // replaced by an empty database
+					case 1:
+						repl = []vlib.Cmd{}
+					}
 					if r.Intn(2) == 0 {
 						cdb.UpdateDatabase(repl)
 						trace = append(trace, fmt.Sprintf("UpdateDatabase(%d)", len(repl)))
